@@ -1,13 +1,36 @@
 package operators
 
 import (
-	"math"
 	"math/big"
 	"strings"
 
 	"github.com/nyaruka/goflow/envs"
 	"github.com/nyaruka/goflow/excellent/types"
+	"github.com/shopspring/decimal"
 )
+
+// maxNumberExponent is the largest decimal exponent (number of decimal places, or of trailing zeros kept outside of
+// the coefficient) that multiplication and exponentiation produce. The cost of every later use of a number (comparing,
+// adding, dividing, rendering) grows with its exponent, and the decimal library panics when exponents overflow 32 bits,
+// e.g. 0.1 ^ 2000000000 * 0.1 ^ 2000000000
+const maxNumberExponent = 100000
+
+// maxFractionalPowerDigits is the largest number of digits, including leading or trailing zeros, of the base and of the
+// power when the power is not a whole number
+const maxFractionalPowerDigits = 64
+
+// the number of digits needed to write the given number without an exponent
+func numberMagnitude(d decimal.Decimal) int {
+	exp := int(d.Exponent())
+	if exp < 0 {
+		exp = -exp
+	}
+	return d.NumDigits() + exp
+}
+
+func exponentOutOfRange(exp *big.Int) bool {
+	return !exp.IsInt64() || exp.Int64() < -maxNumberExponent || exp.Int64() > maxNumberExponent
+}
 
 // Concatenate joins two text values together.
 //
@@ -80,6 +103,11 @@ var Subtract = numericalBinary(func(env envs.Environment, num1 *types.XNumber, n
 //
 // @operator multiply "*"
 var Multiply = numericalBinary(func(env envs.Environment, num1 *types.XNumber, num2 *types.XNumber) types.XValue {
+	// multiplying adds the decimal exponents
+	if exponentOutOfRange(big.NewInt(int64(num1.Native().Exponent()) + int64(num2.Native().Exponent()))) {
+		return types.NewXErrorf("number value out of range")
+	}
+
 	return types.NewXNumber(num1.Native().Mul(num2.Native()))
 })
 
@@ -105,14 +133,26 @@ var Divide = numericalBinary(func(env envs.Environment, num1 *types.XNumber, num
 //
 // @operator exponent "^"
 var Exponent = numericalBinary(func(env envs.Environment, num1 *types.XNumber, num2 *types.XNumber) types.XValue {
-	// raising to an integral power multiplies the decimal exponent of the base by that power, and the decimal
-	// library panics when the product doesn't fit its 32-bit exponent, e.g. 0.001 ^ 999999999
-	resultExp := new(big.Int).Mul(big.NewInt(int64(num1.Native().Exponent())), num2.Native().BigInt())
-	if !resultExp.IsInt64() || resultExp.Int64() < math.MinInt32 || resultExp.Int64() > math.MaxInt32 {
+	base, power := num1.Native(), num2.Native()
+
+	// raising to an integral power multiplies the decimal exponent of the base by that power, e.g. 0.001 ^ 999999999
+	if exponentOutOfRange(new(big.Int).Mul(big.NewInt(int64(base.Exponent())), power.BigInt())) {
 		return types.NewXErrorf("number value out of range")
 	}
 
-	return types.NewXNumber(num1.Native().Pow(num2.Native()))
+	// a negative power is the reciprocal of the positive power, which has the digits of the base that many times over
+	// only to be cut back to 16 decimal places, e.g. 2 ^ -999999999
+	if power.IsNegative() && exponentOutOfRange(new(big.Int).Mul(big.NewInt(int64(base.NumDigits())), power.BigInt())) {
+		return types.NewXErrorf("number value out of range")
+	}
+
+	// a fractional power is calculated from series at a precision that grows with the number of digits of the base and
+	// of the power, and takes seconds from a few hundred digits, e.g. 0.1 ^ 300 ^ 1.5
+	if !power.IsInteger() && (numberMagnitude(base) > maxFractionalPowerDigits || numberMagnitude(power) > maxFractionalPowerDigits) {
+		return types.NewXErrorf("number value out of range")
+	}
+
+	return types.NewXNumber(base.Pow(power))
 })
 
 // LessThan returns true if the first number is less than the second.
